@@ -209,6 +209,9 @@ def r3(ctx: Ctx) -> None:
                 for n, ph in l.phi.items():
                     if a == ph:
                         var = n
+                if var is None and a is not None and strip_ver(a)[0] == "sub" and strip_ver(a)[1][0] == "sym" and strip_ver(a)[1][1].startswith("new"):
+                    ctx.unrec(gs, e.node, "a session starts where the accumulated offset stands", "the start time is read from a table of start times built on the way: how that table accumulates the lengths is not decided", short(a))
+                    continue
                 ctx.check(var is not None, gs, e.node, "a session starts where the accumulated offset stands", "Session(session_start_time=<running offset>)", short(a))
             if var is None:
                 continue
@@ -309,6 +312,11 @@ def r4(ctx: Ctx) -> None:
                 a1 = r[2][1] if len(r[2]) > 1 else dict(r[3]).get("parameters")
                 an = r[2][2] if len(r[2]) > 2 else dict(r[3]).get("allow_none", ("const", False))
                 ok = a0 is not None and key(a0) == arg0 and a1 is not None and key(strip_ver(a1)) == f"self.{series}" and an == ("const", allow)
+            from ..kit import unknown_series
+
+            if not ok and r is not None and unknown_series(r):
+                ctx.unrec(m, m.node, f"{g} reads {series} through the guarded accessor", "the accessor is given something that stands in for the series (a list made on the way): what it holds is not decided", short(r))
+                continue
             ctx.check(ok, m, m.node, f"{g} reads {series} through the guarded accessor", f"self.{acc}({arg0}, self.{series}, allow_none={allow})", short(r))
     # nobody else indexes the series for reading with a foreign index: covered by R5 (stores) and by
     # the accessor rule above; direct reads inside Market use self.time or self.time - 1 (checked in C08.R3).
@@ -347,6 +355,10 @@ def r5(ctx: Ctx) -> None:
             for hp in ctx.paths(f.qualname):
                 for e in hp.walk_events(True):
                     if e.kind == "store" and e.attr is None and series_of(e.base) and strip_ver(e.index)[0] == "const":
+                        guards = [c for c, _, _ in hp.conds if any(x[0] == "attr" and x[2] in SERIES for x in subterms(strip_ver(c))) and not any(key(x) == "time" for x in subterms(strip_ver(c)))]
+                        if guards:
+                            ctx.unrec(f, e.node, f"store into {series_of(e.base)[0]} at the current time", "a fixed slot is written under a condition on the state of the series (e.g. only when storage is allocated for the first time): whether that can hit a recorded slot is not decided", short(guards[0])[:100])
+                            continue
                         ctx.violated(f, e.node, f"store into {series_of(e.base)[0]} at the current time", "index == self.time", f"slot {short(e.index)} is written whenever {f.name} runs, whatever the time: a recorded value is overwritten later")
             continue
         for p in ctx.paths(f.qualname):
@@ -363,6 +375,11 @@ def r5(ctx: Ctx) -> None:
                         continue
                     nst += 1
                     d = diff_const(strip_ver(e.index), strip_ver(now)) if e.index[0] != "slice" else None
+                    if not (d is not None and d == 0) and strip_ver(e.index)[0] == "const":
+                        guards = [c for c, _, _ in p.conds if any(x[0] == "attr" and x[2] in SERIES for x in subterms(strip_ver(c))) and not any(key(x) == "time" for x in subterms(strip_ver(c)))]
+                        if guards:
+                            ctx.unrec(f, e.node, f"store into {' / '.join(sn)} at the current time", "a fixed slot is written under a condition on the state of the series (e.g. only when storage is allocated for the first time): whether that can hit a recorded slot is not decided", short(guards[0])[:100])
+                            continue
                     ctx.check(d is not None and d == 0, f, e.node, f"store into {' / '.join(sn)} at the current time", f"index == {short(now)}", short(e.index))
                 if e.kind == "store" and e.attr in SERIES:
                     q = f.qualname
